@@ -49,6 +49,7 @@ func checkC07(c *Ctx, r *Report) {
 	r.rule("C07.R3.unterminated-quote", 1, "endingToTxtSlice returns strings only with the quote flag false")
 	unterminatedQuote(c, r, "C07.R3.unterminated-quote")
 	absoluteValidated(c, r, "C07.R3.absolute-validated", "with a long $ORIGIN a short relative owner or target gives a name of more than 255 octets; the record is returned without an error and cannot be packed")
+	lineCounted(c, r, "C07.R4.line-counted")
 }
 
 var fileOpeners = map[string]bool{"os.Open": true, "os.OpenFile": true, "os.ReadFile": true, "os.Create": true, "fs.ReadFile": true, "ioutil.ReadFile": true, "os.ReadDir": true, "(fs.FS).Open": true, "(io/fs.FS).Open": true}
